@@ -74,7 +74,29 @@ def run(ctx):
                     nt += 1
             else:
                 ctx.fail("request %s raised" % op, c[:-1] + [op], r, label="impl")
-    ctx.evaluations = len(vals) + sum(len(ipgen.ops_of(c)) for c in cases)
+    # text level: masks (every spelling, incl. leading zeros) and addresses inside preserved networks appear exactly as written
+    from . import linegen, textgen
+    tcases = []
+    for nets, inside in [("P", ["10.1.2.3", "010.001.002.003", "172.16.0.1", "192.168.000.001", "10.255.255.255"]), (ipgen.net("1.2.3.4", 32) + ";" + ipgen.net("11.12.0.0", 16), ["1.2.3.4", "001.002.003.004", "11.12.13.14", "11.012.255.0"]),
+                         ("-", [])]:
+        for _ in range(2 if q else 20):
+            lines = []
+            for _k in range(6):
+                toks = [rng.choice(linegen.V4_MASK + inside + ["8.8.8.8", "100.1.2.3"]) for _j in range(3)] + [rng.choice(linegen.ORDINARY)]
+                rng.shuffle(toks)
+                lines.append(linegen.mk_line(rng, toks))
+            tcases.append((textgen.pipe(lines, flags="a", salt=rng.choice(ipgen.SALTS), nets=nets, b4=rng.choice([0, 8])), inside))
+    tm, ti = ctx.correspond([c for c, _ in tcases], project=lambda c, o: textgen.norm(o), label="text-masks-preserved")
+    for (c, inside), out in zip(tcases, ti):
+        if out.startswith("RAISED"):
+            ctx.fail("processing raised", c[:11], out, label="impl")
+            continue
+        for l, o in zip(c[11:], textgen.outlines(out)):
+            for a, b in zip(l.split(), o.split()):
+                core = a.strip("(),=")
+                if (core in linegen.V4_MASK or core in inside) and a != b:
+                    ctx.fail("%s %r is not left exactly as written: %r" % ("netmask/wildcard value" if core in linegen.V4_MASK else "address inside a preserved network", a, b), {"line": l, "networks": c[7]}, o, label="impl-text")
+    ctx.evaluations = len(vals) + sum(len(ipgen.ops_of(c)) for c in cases) + sum(len(c) - 11 for c, _ in tcases)
     ctx.distinct_nontrivial = len(vals) + nt
     ctx.search_stats = {"mask_values": len(vals), "network_cases": len(cases), "outside_images_checked": nt}
     ctx.samples = [{"case": mcases[0][:5] + [mcases[0][5][:120] + " ..."], "impl": i[0][:60]}, {"case": cases[0], "impl": i2[0]}]
